@@ -119,3 +119,56 @@ From BB Require Import Proofs.FpsShuffle.
 Theorem C16_shuffle_multiset : forall R (perm : list nat) (rows : list R) d,
   Permutation perm (seq 0 (List.length rows)) -> Permutation (apply_perm perm rows d) rows.
 Proof. exact @shuffle_multiset. Qed.
+
+(* ---- further clauses (Proofs/FpsMore.v) ----
+   file-sequence lookup: defined exactly for in-range index lists (out of range -> refused), the empty list,
+   repeats, empty files anywhere in the sequence; fps-split: the parts concatenate to the input, every part
+   but the last has exactly `per` rows, the names are strictly increasing in name order under the digits
+   of the plan, and merging the parts in ANY listing order gives back the rows *)
+From BB Require Import Proofs.FpsMore.
+From Coq Require Import Sorted Permutation.
+Theorem C16_seq_lookup_some_iff : forall {R} (files : list (list R)) idxs d,
+  sortedb idxs = true -> Forall (fun i => 0 <= i) idxs ->
+  (file_seq_get files idxs d <> None <->
+   Forall (fun i => 0 <= i < zlen (List.concat files)) idxs).
+Proof. exact (@seq_lookup_some_iff). Qed.
+Theorem C16_seq_lookup_out_of_range : forall {R} (files : list (list R)) idxs d,
+  Exists (fun i => zlen (List.concat files) <= i) idxs -> file_seq_get files idxs d = None.
+Proof. exact (@seq_lookup_out_of_range). Qed.
+Theorem C16_seq_lookup_empty : forall {R} (files : list (list R)) d,
+  file_seq_get files [] d = Some [].
+Proof. exact (@seq_lookup_empty). Qed.
+Theorem C16_seq_lookup_repeats : forall {R} (files : list (list R)) i k d,
+  0 <= i < zlen (List.concat files) ->
+  file_seq_get files (repeat i k) d = Some (repeat (nth (Z.to_nat i) (List.concat files) d) k).
+Proof. exact (@seq_lookup_repeats). Qed.
+Theorem C16_seq_lookup_empty_files_irrelevant : forall {R} (a b : list (list R)) idxs d,
+  Forall (fun i => 0 <= i) idxs ->
+  file_seq_get (a ++ [] :: b) idxs d = file_seq_get (a ++ b) idxs d.
+Proof. exact (@seq_lookup_empty_files_irrelevant). Qed.
+Theorem C16_split_parts_concat : forall {R} stem (rows : list R) parts mx per digits,
+  (match mx with Some m => 1 <= m | None => True end) ->
+  GUtil.split_plan (zlen rows) parts mx = Some (per, digits) ->
+  List.concat (map snd (split_parts stem digits (Z.to_nat per) rows)) = rows.
+Proof. exact (@split_parts_concat). Qed.
+Theorem C16_split_part_sizes : forall {R} stem (rows : list R) parts mx per digits,
+  rows <> [] -> (match mx with Some m => 1 <= m | None => True end) ->
+  GUtil.split_plan (zlen rows) parts mx = Some (per, digits) ->
+  let ps := split_parts stem digits (Z.to_nat per) rows in
+  let count := List.length ps in
+  Z.of_nat count = ceil_div (zlen rows) per /\ (1 <= count)%nat /\
+  (forall k, (S k < count)%nat -> zlen (snd (nth k ps (EmptyString, []))) = per) /\
+  1 <= zlen (snd (nth (count - 1) ps (EmptyString, []))) <= per /\
+  zlen (snd (nth (count - 1) ps (EmptyString, []))) = zlen rows - (Z.of_nat count - 1) * per.
+Proof. exact (@split_part_sizes). Qed.
+Theorem C16_split_names_sorted : forall {R} stem (rows : list R) parts mx per digits,
+  (match mx with Some m => 1 <= m | None => True end) ->
+  GUtil.split_plan (zlen rows) parts mx = Some (per, digits) ->
+  StronglySorted name_lt (map fst (split_parts stem digits (Z.to_nat per) rows)).
+Proof. exact (@split_names_sorted). Qed.
+Theorem C16_split_merge_plan_any_order : forall {R} stem (rows : list R) parts mx per digits ps,
+  (match mx with Some m => 1 <= m | None => True end) ->
+  GUtil.split_plan (zlen rows) parts mx = Some (per, digits) ->
+  Permutation ps (split_parts stem digits (Z.to_nat per) rows) ->
+  merge_parts ps = rows.
+Proof. exact (@split_merge_plan_any_order). Qed.
